@@ -75,6 +75,8 @@ def random_penalty(d, r, seed, lam_lo=0.05, lam_hi=5.0):
 
 def build_penalty(c):
     d = c["d"]
+    if c["pen"] == "zero":
+        return np.zeros((d, d)), 0            # flat "prior": rank 0, the range space is {0} and the density on it is 1
     if c["pen"] == "diff":
         order = min(c["order"], d - 1)
         K = diff_penalty(d, order) if order >= 1 else np.eye(d)
@@ -91,7 +93,7 @@ def gen_mvnd():
     from vlib.gens import f32
 
     return st.fixed_dictionaries({
-        "d": st.integers(1, 8), "pen": st.sampled_from(["diff", "diff", "random"]), "order": st.integers(0, 3), "r": st.integers(1, 8),
+        "d": st.integers(1, 8), "pen": st.sampled_from(["diff", "diff", "diff", "random", "random", "zero"]), "order": st.integers(0, 3), "r": st.integers(1, 8),
         "seed": st.integers(0, 10**6), "logscale": f32(-3, 3), "ctor": st.sampled_from(["init", "penalty", "smooth"]),
         "give_rank": st.booleans(), "give_log_pdet": st.booleans(),
         "loc_batch": st.sampled_from([[], [], [3], [2, 3], [1]]), "scale_batch": st.sampled_from([[], [], [3], [2, 3]]),
@@ -102,8 +104,8 @@ def gen_mvnd():
 def ref_logprob(P, r, mu, x):
     """float64 Gaussian density on the range space of P (rank r known by construction)."""
     w, V = np.linalg.eigh(P)
-    top = w[-r:]
-    logpdet = np.sum(np.log(top))
+    top = w[len(w) - r:]
+    logpdet = np.sum(np.log(top)) if r else 0.0
     dlt = x - mu
     return -0.5 * (r * math.log(2 * math.pi) - logpdet) - 0.5 * dlt @ P @ dlt, V[:, : len(w) - r]
 
@@ -119,7 +121,7 @@ def construct(c, K, r, scale, loc, ctor, give_rank, give_log_pdet):
     locj = jnp.asarray(loc.astype(dt))
     sc = jnp.asarray(np.asarray(scale, dtype=dt))
     w = np.linalg.eigvalsh(K)
-    lp_pen = float(np.sum(np.log(w[-r:])))
+    lp_pen = float(np.sum(np.log(w[len(w) - r:]))) if r else 0.0
     if int_typed(c) and ctor in ("init", "smooth"):
         # an integer-typed penalty / precision matrix (difference penalties are integer matrices), unit scale
         Ki = jnp.asarray(K.astype(np.int32))
